@@ -31,12 +31,13 @@ type Base struct {
 // F (by the short name they have in a fingerprint report). They are part of the base: an edit
 // inside one is an edit of the base.
 var PrivateHelpers = map[string][]string{
-	"method":      {"(rec).calc"},
-	"genericlen":  {"glen"},
-	"constrecv":   {"(lvl).tag", "(lv2).tag"},
-	"constbound":  {"(bw8).scaled", "(bw16).scaled"},
-	"genericinst": {"isT"},
-	"deferinvoke": {"(*fw).Close", "(*fw).Flush", "(*fw).Note"},
+	"method":         {"(rec).calc"},
+	"genericlen":     {"glen"},
+	"genericnanflip": {"cmpG"},
+	"constrecv":      {"(lvl).tag", "(lv2).tag"},
+	"constbound":     {"(bw8).scaled", "(bw16).scaled"},
+	"genericinst":    {"isT"},
+	"deferinvoke":    {"(*fw).Close", "(*fw).Flush", "(*fw).Note"},
 }
 
 // ManualEdit is a hand-written behaviour-changing rewrite of a base.
@@ -634,6 +635,60 @@ lblOuter:
 	}
 }
 `}}},
+		// the same invalid refactoring inside a GENERIC helper whose constraint admits floats
+		Base{Name: "F", ID: "genericnanflip", ManualOnly: true, Src: "func F" + sig + ` {
+	f, g := float64(a), float64(b)
+	if a == b {
+		z := float64(a - b)
+		f = z / z
+	}
+	return cmpG(f, g) + cmpG(a, b)*10, x
+}
+
+func cmpG[T ~int | ~float64](v, lo T) int {
+	if v >= lo {
+		return 1
+	} else {
+		return 2
+	}
+}
+`, Manual: []ManualEdit{{"invalid refactoring inside a generic helper over ~int | ~float64: `v >= lo {A} else {B}` written as `v < lo {B} else {A}` (differs for NaN)", "func F" + sig + ` {
+	f, g := float64(a), float64(b)
+	if a == b {
+		z := float64(a - b)
+		f = z / z
+	}
+	return cmpG(f, g) + cmpG(a, b)*10, x
+}
+
+func cmpG[T ~int | ~float64](v, lo T) int {
+	if v < lo {
+		return 2
+	} else {
+		return 1
+	}
+}
+`}}},
+		// a comparison that is ALSO used as a value, followed by an ordinary >= test
+		mk("sharedcmp", `	over := a > b
+	n := 0
+	if over {
+		n = 1
+	}
+	if a >= 3 {
+		n += a
+	} else {
+		n -= b
+	}
+	if b > 7 {
+		n *= 2
+	} else {
+		n += 5
+	}
+	if over {
+		return n, y
+	}
+	return n, x`),
 		mk("padliteral", "	z := \""+strings.Repeat("A", 127)+"B\"\n	if a > len(z) {\n		return len(z), z\n	}\n	return a, x + z[:1]"),
 		mk("longunicode", "	z := \""+strings.Repeat("a", 127)+"\u00e9\u00e9 tail of a long literal\"\n	u := \"second-literal\"\n	if b > 0 {\n		return len(z), u\n	}\n	return len(u), z[:3] + y"),
 		mk("hugeliteral", "	z := \""+strings.Repeat("xy", 2600)+"\"\n	return len(z) + a, z[:2] + x"),
